@@ -55,7 +55,7 @@ pub fn choose_enc(ch: &mut Chooser) -> XEnc {
         prefix: ch.flag("enc.prefix"),
         row_r: if ch.flag("enc.row_r_implicit") { RMode::Implicit } else { RMode::Explicit },
         cell_r: if ch.flag("enc.cell_r_implicit") { RMode::Implicit } else { RMode::Explicit },
-        dim: ch.pick("enc.dimension", &[DimMode::Exact, DimMode::Absent, DimMode::TooSmall, DimMode::TooLarge]),
+        dim: ch.pick("enc.dimension", &[DimMode::Exact, DimMode::Absent, DimMode::TooSmall, DimMode::TooLarge, DimMode::StaleRows]),
         target: if ch.flag("enc.target_absolute") { TargetMode::AbsoluteXl } else { TargetMode::Relative },
         upper_parts: ch.flag("enc.part_name_case"),
         method: if ch.flag("enc.stored") { Method::Stored } else { Method::Deflated },
@@ -101,7 +101,7 @@ fn enc_tag(e: &XEnc) -> String {
     if e.prefix { v.push("prefix"); }
     if e.row_r == RMode::Implicit { v.push("row-implicit"); }
     if e.cell_r == RMode::Implicit { v.push("cell-implicit"); }
-    match e.dim { DimMode::Exact => {}, DimMode::Absent => v.push("dim-absent"), DimMode::TooSmall => v.push("dim-small"), DimMode::TooLarge => v.push("dim-large") }
+    match e.dim { DimMode::Exact => {}, DimMode::Absent => v.push("dim-absent"), DimMode::TooSmall => v.push("dim-small"), DimMode::TooLarge => v.push("dim-large"), DimMode::StaleRows => v.push("dim-stale") }
     if e.target == TargetMode::AbsoluteXl { v.push("target-abs"); }
     if e.upper_parts { v.push("part-case"); }
     if e.method == Method::Stored { v.push("stored"); }
